@@ -14,7 +14,7 @@ def tie_groups(rng, items, p_tie=0.35):
 
 
 def gen_ast(rng, na=None, S=None, P=None, L=None, two_sided_lists=True, maxS=5, maxP=4, maxL=3,
-            zero_caps=True, lower=True, empty_lists=True):
+            zero_caps=True, lower=True, empty_lists=True, force_pairs=()):
     na = na or rng.choice([2, 3])
     S = S or rng.randint(1, maxS)
     P = P or rng.randint(1, maxP)
@@ -28,7 +28,13 @@ def gen_ast(rng, na=None, S=None, P=None, L=None, two_sided_lists=True, maxS=5, 
         k = rng.randint(lo, P)
         prefs = rng.sample(range(1, P + 1), k)
         first.append(tie_groups(rng, prefs, rng.choice([0.0, 0.3, 0.6, 1.0])))
+    for sp, pp in force_pairs:
+        # make sure student sp ranks project pp (ids whose decimal concatenations collide, e.g. (1, 11) and (11, 1))
+        if sp <= S and pp <= P and not any(pp in g for g in first[sp - 1]):
+            first[sp - 1].insert(rng.randint(0, len(first[sp - 1])), [pp])
     proj_lec = list(range(1, P + 1)) if na == 2 else [rng.randint(1, L) for _ in range(P)]
+    if na == 3 and force_pairs and L >= P:
+        proj_lec = list(range(1, P + 1))
 
     def cap():
         r = rng.random()
@@ -231,14 +237,14 @@ def enum_small(maxS=2, maxP=2):
                                 yield dict(na=na, n1=S, n2=P, n3=L, first=first, projects=projects, lecturers=lecturers)
 
 
-def gen_ast_large(rng, base, na=None, side=None):
+def gen_ast_large(rng, base, na=None, side=None, master_list=False):
     """An abstract file with more than `base` agents on one side, sparse elsewhere: ids just above the base (base + k)
     and the matching small ids k occur in lists of neighbouring agents, so that id arithmetic which is only injective
     (or only correctly printed / parsed) for small ids shows.  side 1 = many first-side agents, 2 = many projects."""
     na = na or rng.choice([2, 3])
     side = side or rng.choice([1, 2])
     N = base + rng.randint(6, 12)
-    small = rng.randint(2, 3)
+    small = rng.randint(2, 3) if side == 1 else rng.randint(3, 5)
     if side == 1:
         S, P = N, small
     else:
@@ -255,9 +261,14 @@ def gen_ast_large(rng, base, na=None, side=None):
         else:
             pool = sorted(hot) + rng.sample(range(7, base), 3)
             prefs = rng.sample(pool, rng.randint(2, min(7, len(pool))))
+            if rng.random() < 0.7:
+                # a contested project with an id above the base: most students rank it first
+                prefs = [base + 2] + [x for x in prefs if x != base + 2]
         first.append(tie_groups(rng, prefs, rng.choice([0.0, 0.3, 0.6])))
     proj_lec = list(range(1, P + 1)) if na == 2 else [rng.randint(1, L) for _ in range(P)]
     projects = [[0, rng.choice([1, 2, N]), proj_lec[j]] for j in range(P)]
+    if side == 2:
+        projects[base + 1][1] = 1          # the contested project (id base + 2) takes one student
     lecturers = []
     for k in range(1, L + 1):
         if na == 2:
@@ -275,5 +286,29 @@ def gen_ast_large(rng, base, na=None, side=None):
         cut = rng.randint(0, min(5, len(rest)))
         order = rest[:cut] + hs + rest[cut:]
         groups = tie_groups(rng, order, rng.choice([0.0, 0.0, 0.2]))
+        if master_list:
+            # every lecturer ranks its students strictly by increasing number: serial dictatorship in that order is stable
+            groups = [[x] for x in sorted(studs)]
         lecturers.append([lq, tg, uq, groups])
     return dict(na=na, n1=S, n2=P, n3=L, first=first, projects=projects, lecturers=lecturers)
+
+
+def serial_dictatorship(ast):
+    """students in increasing number take the first project of their list (first of a tie group) that has room for them
+    and whose lecturer has room; stable when every lecturer ranks by increasing number (gen_ast_large master_list)"""
+    pl, ll = {}, {}
+    m = [0] * ast['n1']
+    for i in range(ast['n1']):
+        for g in ast['first'][i]:
+            done = False
+            for p in g:
+                kk = ast['projects'][p - 1][2]
+                if pl.get(p, 0) < ast['projects'][p - 1][1] and ll.get(kk, 0) < ast['lecturers'][kk - 1][2]:
+                    m[i] = p
+                    pl[p] = pl.get(p, 0) + 1
+                    ll[kk] = ll.get(kk, 0) + 1
+                    done = True
+                    break
+            if done:
+                break
+    return m
